@@ -1,5 +1,5 @@
 (* Properties/C14.v — Web-seed data lands exactly where it belongs. *)
-From Storrent Require Import Base.Bytes Base.Bencode Model.Wire Model.Torfile Model.Namespace Model.Webseed Proof.Webseed.
+From Storrent Require Import Base.Bytes Base.Bencode Model.Wire Model.Torfile Model.Namespace Model.Webseed Proof.Webseed Proof.WebseedContent.
 Open Scope N_scope.
 
 (* For every file table laid out contiguously with non-negative lengths (what
@@ -46,3 +46,26 @@ Theorem c14_writer_releases_all : forall pl s ws,
   chained (w_off s) (released (evs ++ cl)) /\ total_rel (released (evs ++ cl)) = w_count s /\ w_count s2 = 0.
 Proof. exact writer_releases_all. Qed.
 Print Assumptions c14_writer_releases_all.
+
+(* The data lands where it belongs, byte for byte.  One Write: the bytes it stores, followed by what
+   it keeps buffered, are the bytes buffered before followed by the part of p it accepted; every
+   store begins where the previous one ended, the first at the writer's offset. *)
+Theorem c14_write_content : forall pl s p s' n evs err,
+  w_ok s -> w_Write pl s p = (s', n, evs, err) ->
+  stored evs ++ w_buf s' = w_buf s ++ firstn (N.to_nat n) p /\
+  placed (w_off s) (stores evs) /\ w_off s' = w_off s + len (stored evs) /\ n <= len p.
+Proof. exact w_Write_content. Qed.
+Print Assumptions c14_write_content.
+
+(* ReadFrom (the path the web-seed fetcher uses: io.Copy from the HTTP body), whatever the sizes of
+   the reads the body delivers: the bytes stored and then buffered are the bytes buffered before
+   followed by exactly the first [total] bytes of the body, stored at consecutive offsets from the
+   writer's offset; the rest of the body is untouched.  So byte k of the response lands at offset
+   w_off + len(buffer) + k of the piece, or nowhere. *)
+Theorem c14_readfrom_content : forall pl s stream cuts s' total evs err rest,
+  w_ReadFrom pl s stream cuts = (s', total, evs, err, rest) ->
+  total <= len stream /\ rest = skipn (N.to_nat total) stream /\
+  stored evs ++ w_buf s' = w_buf s ++ firstn (N.to_nat total) stream /\
+  placed (w_off s) (stores evs) /\ w_off s' = w_off s + len (stored evs).
+Proof. exact w_ReadFrom_content. Qed.
+Print Assumptions c14_readfrom_content.
